@@ -536,8 +536,14 @@ def rule_keyed_access(res, rid, m, also_methods=True):
         elif b == 8:
             want.append(HDR + "::getStreamId")
         else:
+            res.bad(rid, "table-key:component:%s" % f["name"], f.get("loc") or ep.get("loc"), "the reassembly key has a component `%s` (%s) besides device id and stream id: "
+                    "an endpoint is (device id, stream id) — with a further component its pending state is stored under one key and looked up or "
+                    "released under another whenever that component differs between frames" % (f["name"], f["t"].get("s")))
             raise Broken("Endpoint field %s has unexpected width %s" % (f["name"], b))
     if sorted(want) != sorted([HDR + "::getDeviceId", HDR + "::getStreamId"]):
+        extra = [f["name"] for f in ep["fields"]]
+        res.bad(rid, "table-key:components", ep.get("loc"), "the reassembly key is %s, an endpoint is exactly (16-bit device id, 8-bit stream id): pending state of one "
+                "endpoint is spread over, or shared between, several entries" % extra)
         raise Broken("Endpoint is not {16-bit device id, 8-bit stream id}")
     users = [f for f in fb.all_functions() if f.name.startswith(DEC + "::") and any(
         n.get("k") == "member" and n.get("field") == m.table for n in f.nodes())]
@@ -1028,7 +1034,9 @@ def rule_declared_length(res, rid, m):
     n = 0
     GPL = MH + "::getPayloadLength"
     for f in (m.ctor, m.addSegment):
-        if not copies_into(f, m.buffer):
+        via_helper = any(g is not None and g.rec == f.rec and g.key != f.key and g.cfg_raw and copies_into(g, m.buffer)
+                         for g in (m.fb.resolve_call(c0) for c0 in f.calls()))
+        if not copies_into(f, m.buffer) and not via_helper:
             res.bad(rid, "%s:stores-the-segment" % f.name.split("::")[-1], f.loc, "%s sizes the reassembly buffer but never copies the segment's bytes into it: "
                     "the delivered payload is zeros where this segment's bytes belong" % f.name)
         for c, dst, src, ln in copies_into(f, m.buffer):
@@ -1056,6 +1064,14 @@ def rule_declared_length(res, rid, m):
                 why = "copy length %s is a parameter that is the remaining frame size at the call site (%s): bytes that follow " \
                       "the segment's declared length in its frame enter the message" % (canon(ln), "; ".join(detail))
             res.check(ok, rid, "%s:copy-length" % f.name.split("::")[-1], c.get("loc"), why, why)
+            # ... computed at full width: the frame may hold 64 KiB or more behind the message (trailing bytes count), so a frame size
+            # converted to 16 bits on the way into min()/the comparison cuts the segment short
+            from rules.encoder_rules import narrowings
+            szp = {p["decl"] for p in f.params if (p["t"].get("k") == "int" and p["t"].get("bits", 0) >= 32)}
+            nar = [x for x in narrowings(f, ln, limit_bits=32) if szp & depends(f, x["e"])[0] and not (GPL in depends(f, x["e"])[1] and not szp & reads(x["e"]))]
+            res.check(not nar, rid, "%s:copy-length-width" % f.name.split("::")[-1], c.get("loc"), "the frame size enters the copy length at full width",
+                      "the copy length `%s` converts the frame size to %s bits: with 64 KiB or more behind the message header the stored segment is "
+                      "shorter than its declared payload" % (canon(ln)[:80], (nar[0].get("t") or {}).get("bits") if nar else "?"))
     return n
 
 
